@@ -483,8 +483,11 @@ class MLIRLexer(Lexer[MLIRTokenKind]):
         return self._form_token(kind, start_pos)
 
     # Match a double-quoted string literal, allowing valid escape sequences (\n, \t, \\, \", and two hex digits).
+    # The raw-character run is matched outside the repeated group (each repetition
+    # starts with a backslash): no nested quantifier, so a literal that is not closed
+    # fails in linear time instead of backtracking exponentially.
     _unescaped_characters_regex = re.compile(
-        r'"(?:[^"\\\n\v\f]+|\\(?:["nt\\]|[0-9A-Fa-f]{2}))*"'
+        r'"[^"\\\n\v\f]*(?:\\(?:["nt\\]|[0-9A-Fa-f]{2})[^"\\\n\v\f]*)*"'
     )
 
     def _lex_string_literal(self, start_pos: Position) -> MLIRToken:
